@@ -2,6 +2,7 @@ package main
 
 import (
 	"fmt"
+	"go/token"
 	"go/types"
 	"math/big"
 	"strings"
@@ -278,6 +279,11 @@ func (vf *VerifyFunc) doCall(st *State, fr *Frame, in ssa.Instruction, cc *ssa.C
 	if f, ok := cc.Value.(*ssa.Function); ok && !cc.IsInvoke() {
 		static = f
 	}
+	if p, ok := cc.Value.(*ssa.Parameter); ok && !cc.IsInvoke() && static == nil {
+		if pk := "param:" + funcKey(fr.fn) + "." + p.Name(); eng.cs.Funcs[pk] != nil {
+			key = pk
+		}
+	}
 	var resT types.Type = cc.Signature().Results()
 	mkres := func() *Val {
 		rt := cc.Signature().Results()
@@ -439,6 +445,12 @@ func (vf *VerifyFunc) applyContract(st *State, fr *Frame, in ssa.Instruction, fc
 	all := args
 	if fc.Kind == "field" && fnv != nil && fnv.Fn != nil && fnv.Fn.Self != nil {
 		all = append([]*Val{fnv.Fn.Self}, args...)
+	}
+	if strings.HasPrefix(fc.Key, "param:") {
+		// contract of a func-typed parameter: it may mention the enclosing function's parameters
+		for k, v := range vf.env {
+			env[k] = v
+		}
 	}
 	for i, n := range fc.Params {
 		if i < len(all) && n != "_" {
@@ -673,6 +685,33 @@ func (vf *VerifyFunc) builtin(st *State, fr *Frame, in ssa.Instruction, name str
 			return vf.appendSlice(st, rt.At(0).Type(), a, b, st.appendInplace)
 		}
 	case "copy":
+		if len(args) == 2 && args[0].S == SBytes && (args[1].S == SBytes || args[1].S == SStr) {
+			src := args[1].Tm
+			if args[1].S == SStr {
+				src = "(bytes_of_str " + args[1].Tm + ")"
+			}
+			dst := args[0].Tm
+			r := st.fresh("copied", SInt)
+			st.assume("(>= " + r + " 0)")
+			if strings.HasPrefix(dst, "mkbytes!") && !st.declSet["copied:"+dst] {
+				// idiom x := make([]byte, len(src)); copy(x, src): the fresh buffer's content becomes src's content
+				st.declSet["copied:"+dst] = true
+				st.assume(implies(eq("(bytes_len "+dst+")", "(bytes_len "+src+")"), "(bytes_eq "+dst+" "+src+")"))
+				return intVal(r)
+			}
+			// copy into a byte slice read from a memory location (copy(x.f, src)): that location now holds the
+			// copied content; other aliases of the same backing array are not updated (abstraction, noted)
+			if ld, ok := cc.Args[0].(*ssa.UnOp); ok && ld.Op == token.MUL {
+				addr := st.get(fr, ld.X)
+				nb := st.fresh("copydst", SBytes)
+				st.assume(eq("(bytes_len "+nb+")", "(bytes_len "+dst+")"))
+				st.assume(implies(eq("(bytes_len "+dst+")", "(bytes_len "+src+")"), "(bytes_eq "+nb+" "+src+")"))
+				st.assume(implies(not(eq(dst, "bytes_nil")), not(eq(nb, "bytes_nil"))))
+				st.storeTo(addr, &Val{T: args[0].T, S: SBytes, Tm: nb}, ld.Type())
+				st.note("copy into a []byte held in memory: aliases of the backing array are not updated")
+				return intVal(r)
+			}
+		}
 		st.havocAll("builtin copy")
 		r := st.fresh("copied", SInt)
 		st.assume("(>= " + r + " 0)")
